@@ -163,8 +163,9 @@ Out(c) ==
     [] c.kind = "vec" -> LET s == ShapeOf(c.cls, c.d, c.lmcfg) IN
                          [case |-> c, shape |-> s, vec |-> Flat(s.pts), other |-> OtherVec(c.d),
                           result |-> [s EXCEPT !.pts = Unflat(OtherVec(c.d), c.d)]]
-    [] c.kind = "vmask" -> [case |-> c, m |-> MeshPool[c.mesh], res |-> MaskResult(MeshPool[c.mesh], c.mask)]
-    [] c.kind = "tmask" -> [case |-> c, m |-> MeshPool[c.mesh], res |-> TriMaskResult(MeshPool[c.mesh], c.mask)]
+    \* rgeom: the geometry queries of the masked mesh are those of its own points and triangles (asked after the parent's)
+    [] c.kind = "vmask" -> [case |-> c, m |-> MeshPool[c.mesh], res |-> MaskResult(MeshPool[c.mesh], c.mask), rgeom |-> MeshGeom(MaskResult(MeshPool[c.mesh], c.mask))]
+    [] c.kind = "tmask" -> [case |-> c, m |-> MeshPool[c.mesh], res |-> TriMaskResult(MeshPool[c.mesh], c.mask), rgeom |-> MeshGeom(TriMaskResult(MeshPool[c.mesh], c.mask))]
     [] c.kind = "geom" -> [case |-> c, m |-> MeshPool[c.mesh], geom |-> MeshGeom(MeshPool[c.mesh])]
 Init == case \in Cases /\ done = FALSE
 Next == done = FALSE /\ done' = TRUE /\ case' = case /\ CSVWrite("%1$s", <<ToJson(Out(case))>>, IOEnv.OUT_FILE)
